@@ -29,6 +29,8 @@ type tcase struct {
 	Outcome string `json:"outcome"` // pass | fail | error
 	// Suites: first lines of the enclosing describe/context blocks, outermost first
 	Suites []int `json:"suites"`
+	// HookFail: a before_each hook of an enclosing suite throws
+	HookFail bool `json:"hookfail,omitempty"`
 }
 
 type testParams struct {
@@ -58,26 +60,43 @@ func (g *testGen) emit(s string) {
 	g.line++
 }
 
-func (g *testGen) suite(depth int, prefix []string, suiteLines []int, ind string) {
+func (g *testGen) suite(depth int, prefix []string, suiteLines []int, ind string, hookFails bool) {
 	nCases := g.r.Range(0, 4)
 	if depth == 0 {
 		nCases = g.r.Range(0, 2)
 	}
+	// hooks are decided first (a failing before_each of this suite makes every case below it
+	// fail, nested suites included) and emitted at the top of the suite, between its cases and
+	// its nested suites, or at its end
+	type hook struct {
+		lines []string
+		pos   int // 0 top, 1 after the cases, 2 after the nested suites
+	}
+	var hooks []hook
 	if g.r.Chance(0.4) {
-		g.emit(ind + "before_each() ->")
-		g.emit(ind + "  println \"before\"")
-		g.emit(ind + "end")
+		body := "  println \"before\""
+		if depth > 0 && g.r.Chance(0.2) {
+			body = "  throw unchecked 7"
+			hookFails = true
+		}
+		hooks = append(hooks, hook{[]string{"before_each() ->", body, "end"}, Pick(g.r, []int{0, 0, 1, 2})})
 	}
 	if g.r.Chance(0.2) {
-		g.emit(ind + "after_each() ->")
-		g.emit(ind + "  println \"after\"")
-		g.emit(ind + "end")
+		hooks = append(hooks, hook{[]string{"after_each() ->", "  println \"after\"", "end"}, Pick(g.r, []int{0, 0, 1, 2})})
 	}
 	if g.r.Chance(0.2) {
-		g.emit(ind + "before_all() ->")
-		g.emit(ind + "  println \"before all\"")
-		g.emit(ind + "end")
+		hooks = append(hooks, hook{[]string{"before_all() ->", "  println \"before all\"", "end"}, 0})
 	}
+	emitHooks := func(pos int) {
+		for _, h := range hooks {
+			if h.pos == pos {
+				for _, l := range h.lines {
+					g.emit(ind + l)
+				}
+			}
+		}
+	}
+	emitHooks(0)
 	for i := 0; i < nCases; i++ {
 		g.n++
 		kind := Pick(g.r, []string{"test", "it", "should"})
@@ -103,8 +122,12 @@ func (g *testGen) suite(depth int, prefix []string, suiteLines []int, ind string
 		}
 		g.emit(ind + "end")
 		name := strings.Join(append(append([]string{}, prefix...), full), " > ")
-		g.cases = append(g.cases, tcase{Name: name, Line: start, EndLine: g.line, Outcome: outcome, Suites: append([]int{}, suiteLines...)})
+		if hookFails && outcome == "pass" {
+			outcome = "hookfail"
+		}
+		g.cases = append(g.cases, tcase{Name: name, Line: start, EndLine: g.line, Outcome: outcome, Suites: append([]int{}, suiteLines...), HookFail: hookFails})
 	}
+	emitHooks(1)
 	if depth < 3 {
 		nSub := g.r.Range(0, 2)
 		if depth == 0 {
@@ -116,10 +139,11 @@ func (g *testGen) suite(depth int, prefix []string, suiteLines []int, ind string
 			name := fmt.Sprintf("%s s%d", Pick(g.r, []string{"Parser", "Lexer", "adds", "when empty", "works"}), g.n)
 			start := g.line + 1
 			g.emit(fmt.Sprintf("%s%s \"%s\" ->", ind, kw, name))
-			g.suite(depth+1, append(append([]string{}, prefix...), name), append(append([]int{}, suiteLines...), start), ind+"  ")
+			g.suite(depth+1, append(append([]string{}, prefix...), name), append(append([]int{}, suiteLines...), start), ind+"  ", hookFails)
 			g.emit(ind + "end")
 		}
 	}
+	emitHooks(2)
 }
 
 func genTestProgram(r *Rand) (string, []tcase, int) {
@@ -128,7 +152,7 @@ func genTestProgram(r *Rand) (string, []tcase, int) {
 	g.emit("using Std::Test::Assertions::*")
 	g.emit("using Std::Test::*")
 	g.emit("")
-	g.suite(0, nil, nil, "")
+	g.suite(0, nil, nil, "", false)
 	return g.b.String(), g.cases, g.line
 }
 
@@ -407,9 +431,32 @@ func (*c34Engine) Execute(t *testing.T, c *Case) *Verdict {
 	for n := range rep.finish {
 		finished[idOf(n)] = true
 	}
+	hookFailed := map[string]bool{}
+	for _, tc := range p.Cases {
+		if tc.HookFail {
+			// the runner returns the report of such a case without a finish event; the property
+			// does not speak about events, the exit status oracle below covers these cases
+			hookFailed[idOf(tc.Name)] = true
+		}
+	}
 	for _, name := range want {
-		if !finished[name] {
+		if !finished[name] && !hookFailed[name] {
 			return bad("selection", "unfinished", "case %q was started but never reported as finished", name)
+		}
+	}
+	// every case that ran reports success exactly when its body passes and no before_each hook
+	// of an enclosing suite fails (wherever in the suite the hook is declared)
+	byID := map[string]tcase{}
+	for _, tc := range p.Cases {
+		byID[idOf(tc.Name)] = tc
+	}
+	for n, st := range rep.finish {
+		tc, ok := byID[idOf(n)]
+		if !ok {
+			continue
+		}
+		if (st == elktest.TEST_SUCCESS) != (tc.Outcome == "pass") {
+			return bad("status", "status/case", "case %q finished with status %v but its expected outcome is %q (hookfail: a before_each hook of an enclosing suite throws)", n, st, tc.Outcome)
 		}
 	}
 	// exit status as cmd/elk computes it
